@@ -71,10 +71,12 @@ impl ScriptedReader {
         }
         let avail = (self.data.len() as u64).saturating_sub(self.pos) as usize;
         match f.as_deref() {
-            Some("error") => {
+            Some(k @ ("error" | "wouldblock" | "timedout" | "brokenpipe" | "unexpectedeof")) => {
                 c.hard_fault = true;
-                c.log.push(json!({"op":"read","at":self.pos,"want":want,"got":-1,"f":"error"}));
-                return Err(Error::new(ErrorKind::Other, "injected"));
+                c.log.push(json!({"op":"read","at":self.pos,"want":want,"got":-1,"f":k}));
+                let kind = match k { "wouldblock" => ErrorKind::WouldBlock, "timedout" => ErrorKind::TimedOut,
+                                     "brokenpipe" => ErrorKind::BrokenPipe, "unexpectedeof" => ErrorKind::UnexpectedEof, _ => ErrorKind::Other };
+                return Err(Error::new(kind, "injected"));
             }
             Some("eof") => {
                 if want > 0 { c.hard_fault = true; }
@@ -117,7 +119,7 @@ impl ScriptedReader {
         if let Some(st) = c.steps.pop_front() {
             match st.as_str() { Some("seek_ok") => {}, Some("seek_fail") => f = Some("error".into()), _ => { c.drift = true; } }
         }
-        if matches!(f.as_deref(), Some("error") | Some("eof")) {
+        if matches!(f.as_deref(), Some("error") | Some("eof") | Some("wouldblock") | Some("timedout") | Some("brokenpipe") | Some("unexpectedeof")) {
             c.hard_fault = true;
             c.log.push(json!({"op":"seek","f":"error"}));
             return Err(Error::new(ErrorKind::Other, "injected"));
